@@ -123,8 +123,14 @@ func (f *faulty) CalculateRealloc(context.Context, string, resourcetypes.RawPara
 	}
 	return &plugintypes.CalculateReallocResponse{EngineParams: resourcetypes.RawParams{}, DeltaResource: resourcetypes.RawParams{}, WorkloadResource: resourcetypes.RawParams{}}, nil
 }
-func (f *faulty) CalculateRemap(context.Context, string, map[string]resourcetypes.RawParams) (*plugintypes.CalculateRemapResponse, error) {
-	return &plugintypes.CalculateRemapResponse{EngineParamsMap: map[string]resourcetypes.RawParams{}}, nil
+
+// CalculateRemap: engine params of its own for every workload it is asked about
+func (f *faulty) CalculateRemap(_ context.Context, _ string, ws map[string]resourcetypes.RawParams) (*plugintypes.CalculateRemapResponse, error) {
+	m := map[string]resourcetypes.RawParams{}
+	for id := range ws {
+		m[id] = resourcetypes.RawParams{"faulty-tag": id}
+	}
+	return &plugintypes.CalculateRemapResponse{EngineParamsMap: m}, nil
 }
 func (f *faulty) SetNodeResourceUsage(context.Context, string, resourcetypes.RawParams, resourcetypes.RawParams, []resourcetypes.RawParams, bool, bool) (*plugintypes.SetNodeResourceUsageResponse, error) {
 	f.commits++
@@ -366,11 +372,19 @@ func (w *world) remap(node string, live []*workload) (string, []map[string]any, 
 	items := []string{}
 	desc := []map[string]any{}
 	bad := false
+	expected := 0
 	for i, l := range live {
 		res, ok := r[l.id]
-		if !ok {
-			continue
+		if w.fault != nil {
+			// the second plugin answers for every workload: its entry must survive the merge
+			if !ok || res["faulty"] == nil || res["faulty"]["faulty-tag"] != l.id {
+				bad = true
+			}
 		}
+		if !ok || res[pluginName] == nil {
+			continue // no cpumem engine params for this workload: not remapped
+		}
+		expected++
 		ep := &ctypes.EngineParams{}
 		raw := res[pluginName]
 		b, _ := json.Marshal(raw)
@@ -384,7 +398,10 @@ func (w *world) remap(node string, live []*workload) (string, []map[string]any, 
 		items = append(items, vh.Pair(vh.Nat(i), zmap(ep.CPUMap)))
 		desc = append(desc, map[string]any{"pos": i, "cpu_map": ep.CPUMap})
 	}
-	if len(r) != len(items) {
+	if w.fault == nil && len(r) != expected {
+		bad = true
+	}
+	if len(r) > len(live) {
 		bad = true
 	}
 	return vh.List(items), desc, bad
@@ -500,6 +517,7 @@ type sop struct {
 	opts  resourcetypes.RawParams
 	label string
 	count int    // alloc: deploy count; realloc: live position
+	scope string // realloc: "", "other-only" or "none": which plugins the request names
 	fault string // "", "commit" or "calc": scripted failure of the second plugin during this operation
 }
 
@@ -703,16 +721,39 @@ func (g gen) history(w *world, spec nodeSpec, nops int, whole bool, jsonTrip boo
 			opts, kind := g.reallocOpts(whole)
 			if forced != nil && forced.opts != nil {
 				opts, kind, i = forced.opts, forced.label, forced.count
+			} else if forced != nil && forced.scope != "" && forced.count < len(live) {
+				i = forced.count
 			}
 			origin := live[i]
 			originWR := parseWR(origin.res[pluginName])
-			_, deltaR, newR, err := w.mgr.Realloc(w.ctx, node, origin.res, resourcetypes.Resources{pluginName: opts})
-			detail := map[string]any{"idx": i, "opts": opts, "origin": originWR}
-			if newR[pluginName] == nil { // CalculateRealloc refused
+			// which plugins the realloc request names: both (default), only the second plugin, or none;
+			// a plugin that is not named is still asked (with an empty request) and keeps its entry
+			scope := "both"
+			if forced != nil && forced.scope != "" {
+				scope = forced.scope
+			} else if w.fault != nil && forced == nil {
+				if x := g.intn(100); x < 12 {
+					scope = "other-only"
+				} else if x < 18 {
+					scope = "none"
+				}
+			}
+			reqRes := resourcetypes.Resources{pluginName: opts}
+			switch scope {
+			case "other-only":
+				reqRes, opts, kind = resourcetypes.Resources{"faulty": resourcetypes.RawParams{"anything": 1}}, nil, "unnamed-other-only"
+			case "none":
+				reqRes, opts, kind = resourcetypes.Resources{}, nil, "unnamed-none"
+			}
+			_, deltaR, newR, err := w.mgr.Realloc(w.ctx, node, origin.res, reqRes)
+			detail := map[string]any{"idx": i, "opts": opts, "scope": scope, "origin": originWR}
+			if newR[pluginName] == nil && err != nil { // CalculateRealloc refused
 				observe(fmt.Sprintf("(OpReallocFail %d)", i), tagName("realloc-"+kind), detail, err, nil)
 				last = nil
 				continue
 			}
+			// (granted without a cpumem entry in the returned resources: the caller stores what it was given;
+			// it parses as the zero resource and the bookkeeping check below decides)
 			if jsonTrip {
 				newR = roundTrip(newR)
 			}
@@ -792,20 +833,20 @@ func TestC08(t *testing.T) {
 	numa2 := nodeSpec{cores: 4, share: 100, memory: 4000, numa: [][]string{{"0", "2"}, {"1", "3"}}, numaMem: []int64{2000, 2000}, describe: "numa2"}
 	plain := nodeSpec{cores: 4, share: 100, memory: 4000, describe: "plain"}
 	boundAlloc := func(cpu float64, mem int64, count int) sop {
-		return sop{"alloc", resourcetypes.RawParams{"cpu-bind": true, "cpu-request": cpu, "cpu-limit": cpu, "memory-request": mem, "memory-limit": mem}, "bound", count, ""}
+		return sop{"alloc", resourcetypes.RawParams{"cpu-bind": true, "cpu-request": cpu, "cpu-limit": cpu, "memory-request": mem, "memory-limit": mem}, "bound", count, "", ""}
 	}
 	unboundAlloc := func(cpu float64, mem int64, count int) sop {
-		return sop{"alloc", resourcetypes.RawParams{"cpu-request": cpu, "cpu-limit": cpu, "memory-request": mem, "memory-limit": mem}, "unbound", count, ""}
+		return sop{"alloc", resourcetypes.RawParams{"cpu-request": cpu, "cpu-limit": cpu, "memory-request": mem, "memory-limit": mem}, "unbound", count, "", ""}
 	}
 	keepRealloc := func(pos int, cpu float64, mem int64, label string) sop {
-		return sop{"realloc", resourcetypes.RawParams{"keep-cpu-bind": true, "cpu-request": cpu, "cpu-limit": cpu, "memory-request": mem, "memory-limit": mem}, label, pos, ""}
+		return sop{"realloc", resourcetypes.RawParams{"keep-cpu-bind": true, "cpu-request": cpu, "cpu-limit": cpu, "memory-request": mem, "memory-limit": mem}, label, pos, "", ""}
 	}
 	plainOp := func(kind string) sop { return sop{kind: kind} }
 	withFault := func(o sop, f string) sop { o.fault = f; return o }
 	// witness of the repaired DeepCopy defect: NUMA-bound alloc, then realloc with no change / more memory
 	emit("corpus", numa2, 3, true, false, []sop{boundAlloc(1, 100, 1), keepRealloc(0, 0, 0, "keep-samecpu"), keepRealloc(0, 0, 50, "keep-samecpu")})
 	emit("corpus", numa2, 4, true, true, []sop{boundAlloc(1, 100, 2), keepRealloc(1, 0, 50, "keep-samecpu"), plainOp("rollback-realloc"), plainOp("release")})
-	emit("corpus", numa2, 5, true, true, []sop{unboundAlloc(0.5, 100, 2), boundAlloc(2, 100, 1), keepRealloc(2, 1, 0, "keep-grow"), sop{"realloc", resourcetypes.RawParams{"cpu-bind": true, "cpu-request": 1.0, "cpu-limit": 1.0}, "bind-grow", 0, ""}, plainOp("rollback-realloc")})
+	emit("corpus", numa2, 5, true, true, []sop{unboundAlloc(0.5, 100, 2), boundAlloc(2, 100, 1), keepRealloc(2, 1, 0, "keep-grow"), sop{"realloc", resourcetypes.RawParams{"cpu-bind": true, "cpu-request": 1.0, "cpu-limit": 1.0}, "bind-grow", 0, "", ""}, plainOp("rollback-realloc")})
 	emit("corpus", plain, 4, true, false, []sop{boundAlloc(1, 100, 2), plainOp("rollback-alloc"), boundAlloc(2, 0, 1), keepRealloc(0, -1, 0, "keep-shrink")})
 	emit("corpus", plain, 6, false, true, []sop{boundAlloc(1.5, 100, 1), unboundAlloc(0.3, 0, 3), keepRealloc(0, 0.2, 100, "keep-grow"), plainOp("rollback-realloc"), plainOp("release"), plainOp("release")})
 	// failure paths: a refused re-add (duplicate rollback of a bound workload), and the second plugin failing
@@ -813,6 +854,11 @@ func TestC08(t *testing.T) {
 	emit("corpus", plain, 3, true, false, []sop{boundAlloc(2, 100, 1), plainOp("readd"), plainOp("release")})
 	emit("corpus", numa2, 6, true, true, []sop{boundAlloc(1, 100, 2), withFault(boundAlloc(1, 100, 1), "commit"), withFault(plainOp("release"), "commit"),
 		withFault(keepRealloc(0, 0, 50, "keep-samecpu"), "commit"), withFault(boundAlloc(1, 0, 1), "calc"), plainOp("release")})
+
+	// a realloc request that names only the second plugin / no plugin at all: cpumem is still asked and its
+	// entry must stay in the returned resources; then release
+	emit("corpus", plain, 3, true, true, []sop{boundAlloc(1, 100, 1), sop{kind: "realloc", label: "unnamed", count: 0, scope: "other-only"}, plainOp("release")})
+	emit("corpus", numa2, 4, true, false, []sop{boundAlloc(1, 100, 2), sop{kind: "realloc", label: "unnamed", count: 1, scope: "none"}, plainOp("release"), plainOp("release")})
 
 	// ---- random histories ----
 	n := r.N(80, 1500)
